@@ -400,9 +400,16 @@ def groupcountdistinctvalues(table, key, value):
     """Group by the `key` field then count the number of distinct values in the
     `value` field."""
     
-    s1 = cut(table, key, value)
+    if isinstance(key, (list, tuple)):
+        keyfields = list(key)
+    else:
+        keyfields = [key]
+    s1 = cut(table, *(keyfields + [value]))
     s2 = distinct(s1)
-    s3 = aggregate(s2, key, len)
+    # the key fields are the first fields of s1; a field that was selected
+    # by position is found at its new position
+    key = [i if isinstance(f, int) else f for i, f in enumerate(keyfields)]
+    s3 = aggregate(s2, key if len(key) > 1 else key[0], len)
     return s3
 
 
